@@ -4,6 +4,7 @@ Only property theorems and non-vacuity examples live here; helper lemmas are in
 Proofs/NamesCodec, Proofs/NamesPost, Proofs/NamesTable.
 -/
 import SfntV.Proofs.NamesCodec
+import SfntV.Generated.Cmapx
 import SfntV.Proofs.NamesPost
 import SfntV.Proofs.NamesTable
 import SfntV.Proofs.NamesLocale
@@ -38,6 +39,24 @@ theorem C14_macroman_injective :
 /-- All 128 high bytes decode to Unicode scalar values, so Go's `string([]rune)` conversion in
 `mac.Decode` never substitutes U+FFFD. -/
 theorem C14_macroman_scalar : ∀ b : Fin 256, isScalar (macDecodeByte b.val) = true := mac_dec_scalar
+
+/-- The single-byte decoder `mac.DecodeOne`, over the full 256-entry table `Gen.macRomanTable`
+that C09's extractor regenerates from it (theorem `C09_macroman_injective` is about the same
+table): it is the identity below 128 followed by this property's table `dec`, it agrees with
+`mac.Decode` on every byte, `mac.Encode` inverts it on all 256 bytes, and it inverts
+`mac.Encode` on every rune of the repertoire. -/
+theorem C14_macroman_decodeone :
+    Gen.macRomanTable = List.range 128 ++ Gen.macDec ∧
+    (∀ b : Fin 256, Gen.macRomanTable.getD b.val 0 = macDecodeByte b.val ∧
+      macEncodeOne (Gen.macRomanTable.getD b.val 0) = b.val) ∧
+    (∀ r, macRepresentable r = true → Gen.macRomanTable.getD (macEncodeOne r) 0 = r) := by
+  have h1 : Gen.macRomanTable = List.range 128 ++ Gen.macDec := by decide +kernel
+  have h2 : ∀ b : Fin 256, Gen.macRomanTable.getD b.val 0 = macDecodeByte b.val := by decide +kernel
+  refine ⟨h1, fun b => ⟨h2 b, by rw [h2 b]; exact mac_enc_dec_byte b⟩, fun r hr => ?_⟩
+  obtain ⟨hd, hlt⟩ := mac_dec_enc_rune hr
+  have := h2 ⟨macEncodeOne r, hlt⟩
+  simp only at this
+  rw [this, hd]
 
 example : macRepresentable 0x2260 = true ∧ macEncode [0x41, 0x2260, 0xFB01] = [0x41, 173, 222] := by
   decide +kernel
